@@ -9,6 +9,7 @@ from prov.identifier import Namespace, QualifiedName
 from prov.model import ProvDocument
 
 from .. import explore, machine, observe, spec
+from prov.model import ProvException
 from ..alphabets import S, Q, BARE, URI
 
 MM = "http://mm/"
@@ -27,6 +28,8 @@ def alphabet():
         ("at", ("A", "k", Q("ex")), "s_a"),
         # a second URI under the prefix ex: the document holds a renamed prefix (ex_1)
         ("el", "D", "entity", ("B", "z", Q("ex"))),
+        # two records of one identifier that contradict each other, inside the bundle: it cannot be unified
+        ("el", "B1", "activity", x, ("t1", None)), ("el", "B1", "activity", x, ("t2", None)),
     ]
 
 
@@ -68,9 +71,17 @@ def derive(d):
         d2 = ProvDocument()
         d2.add_bundle(d, mm("asbundle"))
         res.append(("add_bundle(document)", "doc", d2, "doc", d))
-    res.append(("unified", "doc", d.unified(), "doc", d))
+    # (a document or bundle holding contradicting records of one identifier cannot be unified: nothing is derived
+    # then, the other deriving operations still are)
+    try:
+        res.append(("unified", "doc", d.unified(), "doc", d))
+    except ProvException:
+        pass
     for j, b in enumerate(d.bundles):
-        res.append(("bundle[%d].unified" % j, "bundle", b.unified(), "doc", d))
+        try:
+            res.append(("bundle[%d].unified" % j, "bundle", b.unified(), "doc", d))
+        except ProvException:
+            pass
     if d.has_bundles():
         res.append(("flattened", "doc", d.flattened(), "doc", d))
     for fmt in ("json", "xml"):
@@ -283,7 +294,7 @@ def main(tier, seed):
     out.conform = out.nontrivial
     vs, nsig = runner.violations_json(sp, out)
     cov = runner.coverage_from(out, stats, sp, (
-        "%d states of a 14-letter alphabet (BFS to depth %d; quick: every state to depth 3 and five hand-picked deeper ones) x "
+        "%d states of a 16-letter alphabet (BFS to depth %d; quick: every state to depth 3 and five hand-picked deeper ones) x "
         "every deriving operation (copy, add_record into another / the own container, constructor, update, "
         "add_bundle(document), unified of the document and of each bundle, flattened, JSON/XML reload) x every mutation x side%s; a case is "
         "distinct by (state, derivation, side, mutation[s]); non-trivial = the mutation was applied and the other "
